@@ -261,7 +261,17 @@ func (ex *Exec) havocAllKeepPrivate() {
 	}
 	old := ex.cur.clone()
 	c.havocAll(ex.cur)
+	var pallocs []*ssa.Alloc
 	for al := range ex.private {
+		pallocs = append(pallocs, al)
+	}
+	sort.Slice(pallocs, func(i, j int) bool {
+		if pallocs[i].Block().Index != pallocs[j].Block().Index {
+			return pallocs[i].Block().Index < pallocs[j].Block().Index
+		}
+		return pallocs[i].Name() < pallocs[j].Name()
+	})
+	for _, al := range pallocs {
 		av, ok := ex.vals[al]
 		if !ok || av.K != KRef || av.T == "" {
 			continue
@@ -734,6 +744,7 @@ func (ex *Exec) enterLoop(h *ssa.BasicBlock, li *loopInfo, preds []*ssa.BasicBlo
 				// the invariant names a local that is not carried by this
 				// loop (any more): it cannot be established
 				t = "false"
+				inv = &Clause{Kind: inv.Kind, Label: inv.Label, Text: inv.Text + "   [cannot be evaluated here: " + err.Error() + "]", E: inv.E, File: inv.File, Line: inv.Line}
 			}
 			lbl := inv.Label
 			ex.addObl(fmt.Sprintf("loop%d/inv-init", li.index), lbl, ex.reach[h], t, li.pos, inv.Text, false)
@@ -807,15 +818,59 @@ func (ex *Exec) loopEnv(h *ssa.BasicBlock, phiVal func(*ssa.Phi) Val, mem *MemSt
 			}
 		}
 	}
-	// values defined before the loop that dominate the header
-	for val, x := range ex.vals {
-		if in, ok := val.(ssa.Instruction); ok && in.Block() != nil && in.Block() != h && in.Block().Dominates(h) {
+	// results of calls named by the contract (those met so far)
+	for k, nv := range ex.top.named {
+		if _, clash := env.vars[k]; !clash {
+			env.vars[k] = nv
+		}
+	}
+	// values defined before the loop that dominate the header (nearest
+	// dominating definition first: deterministic and the one in scope)
+	{
+		type cand struct {
+			val   ssa.Value
+			x     Val
+			depth int
+			pos   int
+		}
+		var cands []cand
+		for val, x := range ex.vals {
+			if in, ok := val.(ssa.Instruction); ok && in.Block() != nil && in.Block() != h && in.Block().Dominates(h) {
+				pos := 0
+				for i, bi := range in.Block().Instrs {
+					if bi == in {
+						pos = i
+					}
+				}
+				cands = append(cands, cand{val, x, domDepth(in.Block()), pos})
+			}
+		}
+		sort.Slice(cands, func(i, j int) bool {
+			if cands[i].depth != cands[j].depth {
+				return cands[i].depth > cands[j].depth
+			}
+			if cands[i].pos != cands[j].pos {
+				return cands[i].pos > cands[j].pos
+			}
+			return cands[i].val.Name() < cands[j].val.Name()
+		})
+		for _, cd := range cands {
+			val, x := cd.val, cd.x
 			if _, clash := env.vars[val.Name()]; !clash {
 				env.vars[val.Name()] = x
 			}
-			if al, ok := val.(*ssa.Alloc); ok && al.Comment != "" {
-				if _, clash := env.vars[al.Comment]; !clash {
-					env.vars[al.Comment] = x
+			switch v := val.(type) {
+			case *ssa.Alloc:
+				if v.Comment != "" {
+					if _, clash := env.vars[v.Comment]; !clash {
+						env.vars[v.Comment] = x
+					}
+				}
+			case *ssa.Phi:
+				if v.Comment != "" {
+					if _, clash := env.vars[v.Comment]; !clash {
+						env.vars[v.Comment] = x
+					}
 				}
 			}
 		}
@@ -830,6 +885,15 @@ func (ex *Exec) bindDominating(env *Env, at ssa.Instruction) {
 		return
 	}
 	blk := at.Block()
+	// candidates in a deterministic order: the nearest dominating definition
+	// first (deepest block in the dominator tree, then the later instruction)
+	type cand struct {
+		val   ssa.Value
+		x     Val
+		depth int
+		pos   int
+	}
+	var cands []cand
 	for val, x := range ex.vals {
 		in, ok := val.(ssa.Instruction)
 		if !ok || in.Block() == nil || in.Parent() != ex.fn {
@@ -838,6 +902,25 @@ func (ex *Exec) bindDominating(env *Env, at ssa.Instruction) {
 		if !(in.Block() == blk || in.Block().Dominates(blk)) {
 			continue
 		}
+		pos := 0
+		for i, bi := range in.Block().Instrs {
+			if bi == in {
+				pos = i
+			}
+		}
+		cands = append(cands, cand{val, x, domDepth(in.Block()), pos})
+	}
+	sort.Slice(cands, func(i, j int) bool {
+		if cands[i].depth != cands[j].depth {
+			return cands[i].depth > cands[j].depth
+		}
+		if cands[i].pos != cands[j].pos {
+			return cands[i].pos > cands[j].pos
+		}
+		return cands[i].val.Name() < cands[j].val.Name()
+	})
+	for _, cd := range cands {
+		val, x := cd.val, cd.x
 		name := ""
 		switch v := val.(type) {
 		case *ssa.Alloc:
@@ -855,6 +938,14 @@ func (ex *Exec) bindDominating(env *Env, at ssa.Instruction) {
 		}
 	}
 	ex.bindDebugNames(env, blk)
+}
+
+func domDepth(b *ssa.BasicBlock) int {
+	d := 0
+	for x := b.Idom(); x != nil; x = x.Idom() {
+		d++
+	}
+	return d
 }
 
 // bindDebugNames binds source-level local variable names (go/ssa DebugRef,
@@ -934,7 +1025,12 @@ func (ex *Exec) havocLoopMemory(li *loopInfo) {
 			}
 		}
 	}
+	var bodyBlocks []*ssa.BasicBlock
 	for b := range li.body {
+		bodyBlocks = append(bodyBlocks, b)
+	}
+	sort.Slice(bodyBlocks, func(i, j int) bool { return bodyBlocks[i].Index < bodyBlocks[j].Index })
+	for _, b := range bodyBlocks {
 		for _, in := range b.Instrs {
 			switch in := in.(type) {
 			case *ssa.Store:
@@ -1331,7 +1427,13 @@ func (ex *Exec) touchMap(mt *types.Map) {
 // the loop header exits to (a `break`) is therefore an obligation that the
 // edge cannot be taken — for loops that have step clauses.
 func (ex *Exec) breakEdges(b *ssa.BasicBlock) {
-	for h, li := range ex.loops {
+	var hs []*ssa.BasicBlock
+	for h := range ex.loops {
+		hs = append(hs, h)
+	}
+	sort.Slice(hs, func(i, j int) bool { return hs[i].Index < hs[j].Index })
+	for _, h := range hs {
+		li := ex.loops[h]
 		if li.spec == nil || len(li.spec.Steps) == 0 || b == h || !li.body[b] {
 			continue
 		}
